@@ -897,6 +897,10 @@ class NumaNode(Node):
                 n = Node(from_dict)
                 n.name  = '%s.%s' % (self.name, domain_id)
 
+                # the domains operate on the resources of this node: they
+                # need to be guarded by the same lock
+                n.__lock__ = self.__lock__
+
                 # the resource occupations are *shared* between the node (base
                 # class) which does non-numa scheduling, and the numa domains.
                 n.cores = [self.cores[i] for i in domain_descr.cores]
